@@ -150,6 +150,14 @@ def run(pid, spec, tier, seed, wd, only, rebase, t_start):
     with ThreadPoolExecutor(max_workers=int(os.environ.get('VERIF_JOBS', '16'))) as ex:
         results = list(ex.map(run_one, built))
 
+    # thorough tier: cross-check on a second SAT back end (cadical) for every job that is not split and took under two minutes
+    cross = {}
+    if tier == 'thorough' and not os.environ.get('VERIF_NO_CROSS'):
+        todo = [(j, r) for j, r in zip(built, results) if r['status'] in ('ok', 'failed') and not j.spec.get('split') and r['wall'] < 120 and getattr(j, 'cmd_c', None)]
+        with ThreadPoolExecutor(max_workers=int(os.environ.get('VERIF_JOBS', '16'))) as ex:
+            for (j, r), c in zip(todo, ex.map(lambda jr: D.cross_check(jr[0], jr[1]), todo)):
+                cross[j.jobname] = c
+    selftest = mutant_selftest(spec, built, results, enums, sigs, extracted, wd, includes, etext) if (tier == 'thorough' and not os.environ.get('VERIF_NO_SELFTEST')) else None
     baseline = json.load(open(BASELINE_FILE)) if os.path.exists(BASELINE_FILE) else {}
     base_p = baseline.get(pid, {})
     known = [k for k in load_known().get('findings', []) if k.get('property') == pid]
@@ -161,6 +169,9 @@ def run(pid, spec, tier, seed, wd, only, rebase, t_start):
         js = job.spec
         labels = preprocess_labels(job.cfile, job.defines, job.enforce)
         solver_s += r['wall']
+        cc = cross.get(job.jobname)
+        if cc and cc.get('agree') is False:
+            undecided.append((job.jobname, 'SAT back ends disagree (minisat2 vs %s): %s' % (cc['solver'], cc['differences']), ''))
         if r['status'] == 'undecided':
             undecided.append((job.jobname, r['reason'], r['log'][-1500:]))
             per_unit.append({'job': job.jobname, 'status': 'undecided', 'reason': r['reason']}); continue
@@ -207,7 +218,7 @@ def run(pid, spec, tier, seed, wd, only, rebase, t_start):
         per_unit.append({'job': job.jobname, 'function': (job.enforce or [job.entry])[0], 'status': r['status'], 'obligations': job_obl,
                          'discharged': job_dis, 'by_kind': kinds, 'backend': js.get('backend', 'cbmc 6.11.0 SAT (minisat2)'),
                          'solver_wall_s': round(r['wall'], 2), 'covers_reached': len(covers_hit), 'bounded': js.get('bounded'),
-                         'defines': js.get('defines', [])})
+                         'defines': js.get('defines', []), 'cross_check': cross.get(job.jobname)})
         for key, res in fails:
             blocked = res['status'] == 'UNKNOWN'
             if blocked and any(f[1]['status'] == 'FAILURE' for f in fails):
@@ -276,6 +287,7 @@ def run(pid, spec, tier, seed, wd, only, rebase, t_start):
             'undecided': [{'job': j, 'reason': r} for j, r, _ in undecided],
             'known_findings_seen': [k['id'] for k in known_seen],
             'exhaustive': False,
+            'mutant_selftest': selftest,
         },
         'assumptions': spec.get('assumptions', []),
         'wall_s': round(wall, 1),
@@ -293,6 +305,68 @@ def run(pid, spec, tier, seed, wd, only, rebase, t_start):
     print('%s tier=%s: %d/%d obligations discharged in %d jobs (%d bounded-only jobs), %.0fs wall, %.0fs solver' %
           (pid, tier, n_dis, n_obl, len(built), len(bounded), wall, solver_s))
     return rc
+
+MUT_RULES = [(r'\bif\s*\(', 'if (false && '), (r'\bif\s*\(', 'if (true || '), (r'<=', '<'), (r'>=', '>'), (r'(?<![<>=!-])<(?![<=])', '<='), (r'(?<![<>=!-])>(?![>=])', '>='), (r'==', '!='), (r'!=', '=='), (r'&&', '||'), (r'\|\|', '&&'),
+             (r'\+ 1\b', '+ 2'), (r'- 1\b', '- 0'), (r'\btrue\b', 'false'), (r'\bfalse\b', 'true')]
+
+def mutant_selftest(spec, built, results, enums, sigs, extracted, wd, includes, etext):
+    """thorough tier: for every cheap unit job, up to three deliberately broken copies of the source span (one operator flipped) go through the
+    same pipeline; a mutant is 'killed' when some obligation fails, 'undecided' when the pipeline refuses it.  A unit none of whose
+    mutants is killed is reported as 'contract too weak' - in the evidence only, it decides nothing."""
+    import random
+    report = {}
+    todo = []
+    for job, r in zip(built, results):
+        js = job.spec
+        if js.get('lemma') or not job.enforce or r['status'] not in ('ok', 'failed') or r['wall'] > 40 or js.get('split'): continue
+        fn = job.enforce[0]
+        if fn not in spec['units'] or fn in report or fn not in extracted: continue
+        ex = extracted[fn]
+        body_start = ex.span.find('{')
+        muts = []
+        for rx, rep in MUT_RULES:
+            ms = [m for m in re.finditer(rx, ex.span) if m.start() > body_start and ex.span.count('"', 0, m.start()) % 2 == 0]
+            if ms:
+                m = ms[len(ms) // 2]
+                muts.append(('%s -> %s at offset %d' % (m.group(), rep, m.start()), ex.span[:m.start()] + rep + ex.span[m.end():]))
+        report[fn] = {'job': job.jobname, 'mutants': 0, 'killed': 0, 'undecided': 0, 'survivors': []}
+        for k, (desc, mspan) in enumerate(muts[:4]):
+            todo.append((fn, job, k, desc, mspan))
+    def one(item):
+        fn, job, k, desc, mspan = item
+        u = dict(spec['units'][fn]); u.setdefault('cname', fn)
+        full = U.repo_text(u['file'])
+        ex0 = extracted[fn]
+        if full.count(ex0.span) != 1:
+            return fn, desc, 'undecided'
+        try:
+            U._file_cache[('MUT', fn, k)] = full.replace(ex0.span, mspan)
+            u2 = dict(u); u2['file'] = ('MUT', fn, k)
+            exm = U.extract(u2, enums, sigs)
+        except Exception:
+            return fn, desc, 'undecided'
+        js = job.spec
+        bodies = [(exm.text if n == fn else extracted[n].text) for n in js.get('bodies', [])]
+        if js.get('extra_c'): bodies.append(js['extra_c'])
+        name = re.sub(r'[^\w]', '_', 'mut_%s_%d' % (job.jobname, k))
+        cfile = D.write_unit_c(wd, name, js.get('includes', includes), etext, bodies, D.gen_harness(fn, sigs[fn]))
+        j2 = D.Job(**{**job.__dict__, 'jobname': name, 'filebase': name, 'cfile': cfile, 'replace': list(job.replace)})
+        r2 = D.run_job(j2)
+        if r2['status'] == 'undecided': return fn, desc, 'undecided'
+        fails = [x for x in r2['results'] if x['status'] == 'FAILURE' and 'COVER' not in x['desc']]
+        # the canary clause always fails; a kill needs another failure
+        fails = [x for x in fails if not re.search(r'postcondition\.\d+$', x['name']) or 'canary' not in (x.get('desc') or '')]
+        real = [x for x in r2['results'] if x['status'] == 'FAILURE']
+        return fn, desc, ('killed' if len(real) > 1 else 'survived')
+    with ThreadPoolExecutor(max_workers=int(os.environ.get('VERIF_JOBS', '16'))) as ex:
+        for fn, desc, verdict in ex.map(one, todo):
+            rep = report[fn]; rep['mutants'] += 1
+            if verdict == 'killed': rep['killed'] += 1
+            elif verdict == 'undecided': rep['undecided'] += 1
+            else: rep['survivors'].append(desc)
+    for fn, rep in report.items():
+        rep['verdict'] = 'no mutant generated' if rep['mutants'] == 0 else ('ok' if rep['killed'] > 0 else ('all mutants refused by the pipeline' if rep['undecided'] == rep['mutants'] else 'CONTRACT TOO WEAK: no mutant killed'))
+    return report
 
 def match_known(known, v):
     for k in known:
